@@ -56,8 +56,14 @@ FallbackStr == "dflt"
 (* ------------------------------------------------------------------ state *)
 NONE == [set |-> FALSE, path |-> <<>>, vtag |-> ""]
 NewFrame(lvl) == [lvl |-> lvl, acc |-> [i \in ItemIds(lvl) |-> <<>>], pos |-> <<>>, child |-> 0]
+\* short names declared as a flag somewhere in the tree and as an argument somewhere else: a
+\* multi-letter item containing one cannot be tokenised (it is reported before anything else)
+ShortsOfKind(d, isArg) == UNION {UNION {RangeOf(l.named[k].shorts) : k \in {k \in DOMAIN l.named : (l.named[k].kind = "arg") = isArg}}
+                                 : l \in AllLevels(d)}
+Ambiguous(d) == ShortsOfKind(d, TRUE) \cap ShortsOfKind(d, FALSE)
 InitSt(def) == [frames |-> <<NewFrame(def)>>, path |-> <<>>, pending |-> "", posOnly |-> FALSE,
-                frozen |-> FALSE, dead |-> "", helpAt |-> NONE, verAt |-> NONE, outside |-> FALSE]
+                frozen |-> FALSE, dead |-> "", helpAt |-> NONE, verAt |-> NONE, outside |-> FALSE,
+                amb |-> Ambiguous(def), ambig |-> FALSE]
 
 Cur(st)       == st.frames[Len(st.frames)]
 SetCur(st, f) == [st EXCEPT !.frames[Len(st.frames)] = f]
@@ -129,8 +135,10 @@ Plain(st, e) ==
                          ELSE Kill(st, "unknown")
     [] e.t = "unk"    -> Kill(st, "unknown")
     [] e.t = "name"   -> StepName(st, e.s)
-    [] e.t \in {"eq", "glued"} -> StepAttached(st, e.s, e.v)
+    [] e.t = "eq" -> StepAttached(st, e.s, e.v)
+    [] e.t = "glued" -> IF e.s \in st.amb THEN [st EXCEPT !.ambig = TRUE] ELSE StepAttached(st, e.s, e.v)
     [] e.t = "cluster" ->     \* -abc: flags, possibly ending in a short argument (value attached or next item)
+         IF (RangeOf(e.ss) \cup {e.last}) \cap st.amb # {} THEN [st EXCEPT !.ambig = TRUE] ELSE
          LET st1 == FoldNames(st, e.ss) IN
          IF e.last = "" THEN st1
          ELSE IF e.hasv THEN StepAttached(st1, e.last, e.v) ELSE StepName(st1, e.last)
@@ -138,7 +146,8 @@ Plain(st, e) ==
 
 \* the user types one more item (one OS string)
 Step(st, e) ==
-  IF st.posOnly THEN PushPos(st, e.txt, TRUE)
+  IF st.ambig THEN st                        \* tokenising stopped at the ambiguous item
+  ELSE IF st.posOnly THEN PushPos(st, e.txt, TRUE)
   ELSE IF st.pending # ""
        THEN IF e.t = "word" THEN FeedArg([st EXCEPT !.pending = ""], st.pending, e.s)
             ELSE Plain(Kill([st EXCEPT !.pending = ""], "noarg"), e)
@@ -239,7 +248,8 @@ Finish(st, envv) == LET r == FrameVal(st.frames, 1, envv) IN
   IF r.ok THEN [class |-> "ok", value |-> r.v] ELSE [class |-> "stderr", why |-> r.why]
 
 Outcome(st, envv) ==
-  IF st.helpAt.set THEN [class |-> "stdout", kind |-> "help", path |-> st.helpAt.path]
+  IF st.ambig THEN [class |-> "stderr", why |-> [k |-> "ambiguity"]]
+  ELSE IF st.helpAt.set THEN [class |-> "stdout", kind |-> "help", path |-> st.helpAt.path]
   ELSE IF st.verAt.set THEN [class |-> "stdout", kind |-> "version", vtag |-> st.verAt.vtag]
   ELSE IF st.dead # "" THEN [class |-> "stderr", why |-> [k |-> st.dead]]
   ELSE IF st.pending # "" THEN [class |-> "stderr", why |-> [k |-> "noarg"]]
@@ -325,12 +335,12 @@ TypeOK == /\ Out.class \in {"ok", "stderr", "stdout"}
 \* the acceptor is a function of the line: folding Step over the history gives the state
 Functional == st = Run(InitSt(def), line)
 \* C10: once asked, help stays the outcome and keeps describing the same command
-HelpWins == st.helpAt.set => Out.class = "stdout" /\ Out.kind = "help" /\ Out.path = st.helpAt.path
+HelpWins == (st.helpAt.set /\ ~st.ambig) => Out.class = "stdout" /\ Out.kind = "help" /\ Out.path = st.helpAt.path
 HelpSticky == [][st.helpAt.set => st'.helpAt = st.helpAt]_vars
 \* C05: an item nobody accepts can never be repaired by typing more (help/version aside)
-NoResurrection == [][st.dead # "" => Outcome(st', env).class # "ok"]_vars
+NoResurrection == [][(st.dead # "" \/ st.ambig) => Outcome(st', env).class # "ok"]_vars
 \* C09: after `--` everything is positional data at the level where it was typed
-DashDash == [][st.posOnly => /\ st'.posOnly /\ st'.path = st.path /\ st'.helpAt = st.helpAt
+DashDash == [][(st.posOnly /\ ~st.ambig) => /\ st'.posOnly /\ st'.path = st.path /\ st'.helpAt = st.helpAt
                              /\ st'.verAt = st.verAt /\ st'.dead = st.dead
                              /\ Len(Cur(st').pos) = Len(Cur(st).pos) + 1
                              /\ Cur(st').pos[Len(Cur(st').pos)].after]_vars
@@ -350,7 +360,7 @@ Accounted(s) ==
 Held(s) == Accounted(s) + (IF s.pending # "" THEN 1 ELSE 0)
 Entries(e) == IF e.t = "cluster" THEN Len(e.ss) + (IF e.last = "" THEN 0 ELSE 1) ELSE 1
 ExactlyOnce == [][LET e == line'[Len(line')] IN
-                    (st'.dead = "" /\ e.t \notin {"help", "ver"}) =>
+                    (st'.dead = "" /\ ~st'.ambig /\ e.t \notin {"help", "ver"}) =>
                        Held(st') = Held(st) + (IF st.posOnly THEN 1
                                                ELSE IF st.pending # "" /\ e.t = "word" THEN 0
                                                ELSE Entries(e))]_vars
